@@ -59,6 +59,50 @@ def ref_tokens(text):
         return 'err', str(e)
 
 
+def compare_file(st, text, what):
+    """Write `text` to a file, load it the way the command-line driver does, and compare the token stream with the reference
+    tokenizer applied to the same characters (line breaks read as universal newlines)."""
+    import tempfile
+    st.add('evaluations')
+    fd, path = tempfile.mkstemp(suffix='.hid', prefix='hv_c12_')
+    try:
+        with os.fdopen(fd, 'wb') as f:
+            f.write(text.encode('utf-8'))
+        try:
+            src = SourceCode.from_file(path)
+            got = ('ok', [])
+            for lx in hlex(src):
+                t = lx.token
+                if isinstance(t, htok.BoolToken):
+                    kv = ('bool', t.data)
+                elif isinstance(t, htok.EnumToken):
+                    kv = ('kw', str(t)) if str(t) in rlex.KEYWORDS else ('sym', str(t))
+                elif isinstance(t, htok.Ident):
+                    kv = ('ident', (t.flavor.value, t.base_name))
+                else:
+                    kv = ({htok.IntToken: 'int', htok.CharToken: 'char', htok.StringToken: 'str'}[type(t)], t.data)
+                got[1].append(kv + ((lx.span.start.line, lx.span.start.col), (lx.span.end.line, lx.span.end.col)))
+        except LexerError as e:
+            got = ('err', str(e))
+        except Exception as e:
+            got = ('crash', f'{type(e).__name__}: {e}')
+    finally:
+        os.unlink(path)
+    uni = text.replace('\r\n', '\n').replace('\r', '\n')
+    want = ref_tokens(uni)
+    case = {'kind': 'file', 'text': text}
+    if got[0] == 'crash':
+        st.viol(f'{what}: loading/lexing the file raised {got[1]} for {text!r}', case)
+    elif want[0] != got[0]:
+        st.viol(f'{what}: file with contents {text!r}: reference says {want[0]}, hidc says {got[0]} ({got[1] if got[0] == "err" else ""})', case)
+    elif want[0] == 'ok' and want[1] != got[1]:
+        k = next((i for i in range(min(len(want[1]), len(got[1]))) if want[1][i] != got[1][i]), min(len(want[1]), len(got[1])))
+        st.viol(f'{what}: file with contents {text!r}: token {k} differs: reference {want[1][k] if k < len(want[1]) else None} hidc {got[1][k] if k < len(got[1]) else None}', case)
+    else:
+        st.add('accepted' if want[0] == 'ok' else 'rejected')
+        st.add('files_compared')
+
+
 def compare(st, text, what):
     st.add('evaluations')
     a = ref_tokens(text)
@@ -83,7 +127,7 @@ def compare(st, text, what):
 
 
 TOKENS = (sorted(rlex.KEYWORDS) + ['true', 'false'] + rlex.SYMBOLS +
-          ['0', '7', '1_000', '0x1F', '0o17', '0b101', '12', '00', '0xg',
+          ['0', '7', '1_000', '1_000_000', '0xF_F_F', '0b1_0_1', '0o1_2_3', '007', '0x1F', '0o17', '0b101', '12', '00', '0xg',
            "'a'", "'\\n'", "'\\x41'", "'\\''", "'\"'", "'\\\\'",
            '""', '"hi"', '"a\\"b"', '"// not a comment"', '"\\u{1F30E}"',
            'x', '_a1', '@you', '!def', 'iffy', 'is_', 'length', 'x9', '@is_you', '!is_defeat'])
@@ -107,6 +151,8 @@ def items(tier):
         out.append((i, 'int', c, m))
         i += 1
     out.append((i, 'esc'))
+    i += 1
+    out.append((i, 'files'))
     i += 1
     if tier == 'thorough':
         for a in range(len(TOKENS)):
@@ -218,6 +264,18 @@ def run_item(item, tier):
             for sep in SEPS:
                 compare(st, a + sep + b, 'token pair')
         st.sample({'pair_family_first_token': a, 'separators': SEPS, 'second_tokens': len(TOKENS)})
+    elif kind == 'files':
+        toks = ['x', '12', '"a b"', "'c'", '+=', 'while', '@you', '"tab\there"', "'\t'", '"\x0b"', '// c\tc']
+        seps = [' ', '\t', '\n', '\r\n', '\r', '\t\t ', '\n\n', ' // c\n', '\f', '\x0b', '']
+        for a in toks:
+            for b in toks:
+                for sep in seps:
+                    for tail in ('', '\n', '\r\n'):
+                        compare_file(st, a + sep + b + tail, 'file contents')
+        for text in ('', '\n', '\r', '\r\n', ' ', '\t', 'x', 'x\n', '\ufeffx', '"unterminated\n"', '"a\rb"', "'\r'", '// only\n// comments\r// here', 'x\n\n\ny\n\n',
+                     'empty @is_you() {\n\twrite("a\tb");\n}\n', '\tint\tx\t=\t1;\t'):
+            compare_file(st, text, 'file shape')
+        st.sample({'file_texts': 'token pairs x separators (space, tab, LF, CRLF, CR, FF, VT, comment, none) x final newline; raw tabs inside literals'})
     elif kind == 'triples':
         a = TOKENS[item[2]]
         for b in TOKENS:
@@ -318,6 +376,7 @@ def coverage(total, tier):
             'symbols': f'all strings of length <= {5 if tier == "thorough" else 3} over {len(SYMCHARS)} symbol characters',
             'integers': f'all strings of length <= {6 if tier == "thorough" else 4} over {INTCHARS!r}',
             'triples': ('every token x every token x every 2nd token, glued and separated' if tier == 'thorough' else 'thorough tier only'),
+            'files': '11 tokens (incl. literals containing raw TAB / VT) x 11 tokens x 11 separators x 3 line endings written to real files and loaded with SourceCode.from_file, plus 16 file shapes',
             'escapes': 'all 256 \\xHH in 3 forms; every \\c for c in 0x20..0x7e in strings/chars; raw characters U+0000..U+017F; 50 malformed shapes',
             'unicode': 'every \\u{X} and literal character for X in 0..0x10FFFF' if tier == 'thorough' else '\\u{X} at 22 boundary values incl. surrogates and out-of-range',
             'layout': f'{len(layout_seeds())} seed programs (all examples + generated programs of every family) x {POLICIES}',
@@ -337,7 +396,9 @@ def vacuity(total, tier):
 
 def replay(case):
     st = Stats()
-    if case['kind'] == 'lex':
+    if case['kind'] == 'file':
+        compare_file(st, case['text'], 'replay')
+    elif case['kind'] == 'lex':
         compare(st, case['text'], 'replay')
     else:
         name, text = layout_seeds()[case['seed']]
